@@ -350,6 +350,114 @@ theorem discovery_exact (X : XID) (F : XIDFacts X) (mods : List Mod)
   rw [heq]
   exact ⟨(sort_perm _).trans hf, sort_eq_of_perm hf⟩
 
+/-- T1, end to end over the GENERATED `get_tests` (filter, sort, `strip_prefix`, the
+    `get_function::<fn() -> Verdict<(), ()>>` look-up and both `unwrap`s).  For every package
+    whose declared names are identifiers and whose function table holds its items under distinct
+    keys (a hash map), in whatever order: `get_tests` does not panic and returns one handle per
+    test block of every module, at every depth — the handles' keys are the sorted list of the
+    blocks' keys, and each handle is the table's entry of its key (so it runs that block). -/
+theorem discovery_runs (X : XID) (F : XIDFacts X) (mods : List Mod)
+    (hid : ∀ m ∈ mods, ∀ d ∈ m.decls, isIdent X d.name = true)
+    (dbg : Bool) (module : Module)
+    (hperm : module.functions.Perm (packageTable test_fn_name_mir test_sig_mir mods))
+    (hnodup : (Table.keys module.functions).Nodup) :
+    ∃ cs, get_tests dbg module = .ok cs ∧
+      cs.map (fun c => c.func.key) = RStr.sort (testKeys test_fn_name_mir mods) ∧
+      ∀ c ∈ cs, (c.func.key, c.func.info) ∈ packageTable test_fn_name_mir test_sig_mir mods ∧
+        c.func.info.sig = testSig := by
+  have hkeys : (Table.keys module.functions).Perm (Table.keys (packageTable test_fn_name_mir test_sig_mir mods)) :=
+    hperm.map _
+  obtain ⟨hp, hs⟩ := discovery_exact X F mods hid module hkeys
+  have hget : get_tests dbg module = List.mapM (get_tests_case dbg module) (get_tests_keys module) := by
+    simp [get_tests, get_tests_keys, RIter.into_iter, RIter.collect, RIter.map, RIter.filter, Id.run]
+    rfl
+  have hstep : ∀ k ∈ get_tests_keys module, ∃ c, get_tests_case dbg module k = .ok c ∧
+      (c.func.key = k ∧ (c.func.key, c.func.info) ∈ packageTable test_fn_name_mir test_sig_mir mods ∧
+        c.func.info.sig = testSig) := by
+    intro k hk
+    obtain ⟨v, rest, hmem, rfl⟩ := testKeys_mem_table test_fn_name_mir test_sig_mir mods k (hp.subset hk)
+    obtain ⟨c, hc, hf⟩ := get_tests_case_spec dbg module rest ⟨test_sig_mir, v⟩ hnodup (hperm.symm.subset hmem) rfl
+    exact ⟨c, hc, by rw [hf]; exact ⟨rfl, hmem, rfl⟩⟩
+  obtain ⟨cs, hcs, hall⟩ := mapM_ok_forall₂ _ _ (get_tests_keys module) hstep
+  have hk := All2.keys hall
+  exact ⟨cs, hget.trans hcs, hk.1.trans hs, hk.2⟩
+
+/-- The first sentence of the property, end to end over the GENERATED `run_tests`: on such a
+    package, `run_tests` runs every test block of every module exactly once, in the sorted order
+    of the blocks' keys (a function of the names only), and returns `Ok` iff every block's
+    declared verdict is accept. -/
+theorem run_package_truthful {ε} (X : XID) (F : XIDFacts X) (mods : List Mod)
+    (hid : ∀ m ∈ mods, ∀ d ∈ m.decls, isIdent X d.name = true)
+    (dbg : Bool) (module : Module)
+    (hperm : module.functions.Perm (packageTable test_fn_name_mir test_sig_mir mods))
+    (hnodup : (Table.keys module.functions).Nodup)
+    (hsmall : (testKeys test_fn_name_mir mods).length < 2^31) (log : List Event) :
+    ∃ r, run_tests (ε := ε) dbg module () log
+        = (.ok r, log ++ (RStr.sort (testKeys test_fn_name_mir mods)).map Event.ranTest) ∧
+      (r = .Ok () ↔ ∀ m ∈ mods, ∀ n v, Decl.test n v ∈ m.decls → v = .Accept ()) := by
+  obtain ⟨cs, hget, hkeys, hinfo⟩ := discovery_runs X F mods hid dbg module hperm hnodup
+  have hlen : cs.length < 2^31 := by
+    have := congrArg List.length hkeys
+    rw [List.length_map, (sort_perm _).length_eq] at this
+    omega
+  obtain ⟨r, hr, hiff⟩ := run_tests_truthful (ε := ε) dbg module cs hget hlen log
+  have hev : cs.map evOf = (RStr.sort (testKeys test_fn_name_mir mods)).map Event.ranTest := by
+    rw [← hkeys, List.map_map]; rfl
+  refine ⟨r, by rw [hr, hev], hiff.trans ?_⟩
+  have hnd : (Table.keys (packageTable test_fn_name_mir test_sig_mir mods)).Nodup := by
+    have hp : (Table.keys module.functions).Perm (Table.keys (packageTable test_fn_name_mir test_sig_mir mods)) :=
+      hperm.map _
+    exact hp.nodup_iff.mp hnodup
+  constructor
+  · intro h m hm n v hd
+    have hk := decl_mem_testKeys test_fn_name_mir mods m hm n v hd
+    have hk' : fullName m.path (test_fn_name_mir n) ∈ cs.map (fun c => c.func.key) := by
+      rw [hkeys]; exact (sort_perm _).symm.subset hk
+    obtain ⟨c, hc, hck⟩ := List.mem_map.mp hk'
+    have h1 := (hinfo c hc).1
+    have h2 : (fullName m.path (test_fn_name_mir n), (⟨test_sig_mir, v⟩ : FnInfo)) ∈
+        packageTable test_fn_name_mir test_sig_mir mods := by
+      simp only [packageTable, List.mem_flatMap, moduleTable, List.mem_map]
+      exact ⟨m, hm, .test n v, hd, rfl⟩
+    rw [hck] at h1
+    have := mem_nodup_unique _ _ _ _ hnd h1 h2
+    have hv := h c hc
+    rw [this] at hv
+    exact hv
+  · intro h c hc
+    have hk : c.func.key ∈ testKeys test_fn_name_mir mods := by
+      have : c.func.key ∈ cs.map (fun c => c.func.key) := List.mem_map.mpr ⟨c, hc, rfl⟩
+      rw [hkeys] at this
+      exact (sort_perm _).subset this
+    simp only [testKeys, List.mem_flatMap, List.mem_map, List.mem_filter] at hk
+    obtain ⟨m, hm, d, ⟨hd, ht⟩, hkey⟩ := hk
+    cases d with
+    | fn n i => simp [Decl.isTest] at ht
+    | test n v =>
+      have h2 : (c.func.key, (⟨test_sig_mir, v⟩ : FnInfo)) ∈ packageTable test_fn_name_mir test_sig_mir mods := by
+        rw [← hkey]
+        simp only [packageTable, List.mem_flatMap, moduleTable, List.mem_map]
+        exact ⟨m, hm, .test n v, hd, rfl⟩
+      have := mem_nodup_unique _ _ _ _ hnd (hinfo c hc).1 h2
+      rw [this]
+      exact h m hm n v hd
+
+/-- non-vacuity: a package with blocks at depths 0, 1 and 3 (none at depth 2), a function that
+    shares a block's name, the table in reverse order: all three blocks are found and run in
+    sorted key order, and the run fails because the deepest block rejects. -/
+example :
+    let a : Name := ['a']
+    let mods : List Mod := [⟨[], [.fn a ⟨entrySig, .Accept ()⟩, .test a (.Accept ())]⟩,
+                            ⟨[['m']], [.test a (.Accept ())]⟩,
+                            ⟨[['m'], ['u'], ['s']], [.test a (.Reject ())]⟩]
+    let module : Module := ⟨(packageTable test_fn_name_mir test_sig_mir mods).reverse⟩
+    (Table.keys module.functions).Nodup ∧
+    run_tests (ε := Unit) true module () []
+      = (.ok (.Err ()), [.ranTest (pkgDot ++ ['m', '.', 't', 'e', 's', 't', '#', 'a']),
+                          .ranTest (pkgDot ++ ['m', '.', 'u', '.', 's', '.', 't', 'e', 's', 't', '#', 'a']),
+                          .ranTest (pkgDot ++ ['t', 'e', 's', 't', '#', 'a'])]) := by
+  decide
+
 /-- the type checker and the MIR lowerer agree on the name and signature of a test, and the
     runner asks for exactly that signature -/
 theorem test_item_agree (n : Name) :
